@@ -411,6 +411,20 @@ let pnet_maxcount p =
   List.fold_left (fun m b -> List.fold_left (fun m i -> List.fold_left (fun m pm ->
       List.fold_left (fun m s -> max m (psig_maxcount s)) m pm.pm_signals) m i.pif_msgs) m b.pb_ifaces) 0 p.pn_buses
 
+(* cost of running the list based model loader on a tree: Message.InsertSignal compares the names of the
+   flattened tree pairwise, and a fixed member of a multiplexer occurs once per group in the flattened tree, so
+   the cost is about (group count x fixed members + other refs)^2.  Inputs above the bound are not run through
+   the model (counted in MODELSKIP); the Go side is still judged by its own outcome classes. *)
+let rec psig_flat_size (PSig (_, _, _, _, _, body)) = match body with
+  | PSBMux (sigs, fixed, c, _, groups) ->
+    let refs = List.fold_left (fun m g -> m + List.length g) 0 groups in
+    let inner = List.fold_left (fun m s -> max m (psig_flat_size s)) 1 sigs in
+    (BZ.to_int (z_of_coqz c) * (List.length fixed) + refs + 1) * inner
+  | _ -> 1
+let pnet_cost p =
+  List.fold_left (fun m b -> List.fold_left (fun m i -> List.fold_left (fun m pm ->
+      List.fold_left (fun m s -> max m (psig_flat_size s)) m pm.pm_signals) m i.pif_msgs) m b.pb_ifaces) 0 p.pn_buses
+
 (* ---------------------------------------------------------------- main *)
 let cause_name = function
   | MissingField -> "MissingField" | MissingOneof -> "MissingOneof" | InvalidOneof -> "InvalidOneof"
@@ -430,7 +444,7 @@ let () =
   let verbose = Array.length Sys.argv > 2 && Sys.argv.(2) = "-v" in
   let nets : (string, net * sx) Hashtbl.t = Hashtbl.create 64 in
   let pnets : (string, pNet) Hashtbl.t = Hashtbl.create 64 in
-  let checks = ref 0 and bad = ref 0 and wffail = ref 0 and wfskip = ref 0 and loads_ok = ref 0 and loads_err = ref 0 in
+  let checks = ref 0 and bad = ref 0 and wffail = ref 0 and wfskip = ref 0 and modelskip = ref 0 and loads_ok = ref 0 and loads_err = ref 0 in
   let causes : (string, int) Hashtbl.t = Hashtbl.create 16 in
   let report kind id detail =
     incr bad;
@@ -475,6 +489,7 @@ let () =
             let sx = parse_sx line (sp + 1) in
             let p = Hashtbl.find pnets (id ^ "/" ^ enc) in
             Hashtbl.remove pnets (id ^ "/" ^ enc);
+            if pnet_cost p > 6_000 then begin incr modelskip; raise Exit end;
             incr checks;
             let m = load now_time p in
             (match m with
@@ -495,6 +510,7 @@ let () =
             if verbose then Printf.printf "L %s/%s model=%s\n" id enc (match m with Ok n' -> sx_to_string (sx_net (prune n')) | Err c -> "Err " ^ cause_name c)
           | _ -> ()
         with
+        | Exit -> ()
         | Failure msg -> incr bad; Printf.printf "DRIVERERR %s %s %s\n" kind id msg
         | Not_found -> incr bad; Printf.printf "DRIVERERR %s %s not-found\n" kind id)
       end
@@ -502,4 +518,5 @@ let () =
   Hashtbl.iter (fun k v -> Printf.printf "CAUSE %s %d\n" k v) causes;
   Printf.printf "LOADS ok %d err %d\n" !loads_ok !loads_err;
   Printf.printf "WFSKIP %d\n" !wfskip;
+  Printf.printf "MODELSKIP %d\n" !modelskip;
   Printf.printf "CHECKS %d MISMATCHES %d WFFAIL %d\n" !checks !bad !wffail
